@@ -263,4 +263,52 @@ def run(E: Engine, rep: Report, tier: str) -> dict:
             bad = exact and any(v in BASES for v in values or [])
             rep.check(not bad, "SUFFIX", f"{m.short}|{norm(n)}", f"`{norm(n)}` is a substring test", f"{m.short}: `{norm(n)}` tests a basis name for equality, but here the name may carry the '_with_error' suffix (leakage) -- 'ground-rydberg_with_error' would take the other branch; use a substring test or strip the suffix first", E.where(m, n))
     rep.floor("SUFFIX", 4)
-    return {"string_vs_array_comparisons": n_cmp, "accumulations": n_w, "basis_name_tests": n_sfx}
+
+    # ------------------------------------------------- UNIT: one idiom for the ns -> us conversion of the total duration
+    # The emulator compares / merges times computed at different sites (evaluation times handed over by the backend
+    # config, the end of the sequence, the relative time of a result).  x * 1e-3 and x / 1000 differ in the last bit
+    # for about one duration in seven, so a time that is exactly the end of the sequence on one side is "beyond the
+    # end" (or not 1.0) on the other.  All conversions of a total duration must be written the same way.
+    from .symutil import S as _S2
+
+    idioms: dict = {}
+    for f in P.all_functions():
+        if f.kind == "overload" or f.module.name not in ("pulser_simulation.simulation", "pulser_simulation.qutip_config", "pulser_simulation.qutip_backend"):
+            continue
+        if "duration" not in norm(f.node):
+            continue
+        Sf = _S2(E, f, inline=False)
+        seen_terms = set()
+        for l in Sf.log:
+            for t in (l.target, l.value, l.cond):
+                for x in sym.subterms(t) if t is not None else ():
+                    if x[0] != "mul" or x in seen_terms:
+                        continue
+                    seen_terms.add(x)
+                    facs = x[1:]
+                    dur = [y for y in facs if mentions(y, "_tot_duration", "total_duration_ns") and y[0] != "inv"]
+                    inv_dur = [y for y in facs if y[0] == "inv" and mentions(y[1], "_tot_duration", "total_duration_ns")]
+                    c = facs[0][1] if sym.is_num(facs[0]) else None
+                    inv1000 = any(y == ("inv", ("const", 1000)) or y == ("inv", ("const", 1000.0)) for y in facs)
+                    kind = None
+                    if dur and c is not None and abs(c - 1e-3) < 1e-18:
+                        kind = "duration * 1e-3"
+                    elif dur and inv1000:
+                        kind = "duration / 1000"
+                    elif inv_dur and c is not None and abs(c - 1e3) < 1e-9:
+                        kind = "t / duration * 1e3  (= t / (duration / 1000) up to rounding)"
+                    elif inv_dur and mentions(inv_dur[0], "_tot_duration", "total_duration_ns") and any(sym.is_num(z) and abs(z[1] - 1e-3) < 1e-18 for z in (inv_dur[0][1][1:] if inv_dur[0][1][0] == "mul" else ())):
+                        kind = "duration * 1e-3"
+                    elif inv_dur and inv_dur[0][1][0] == "mul" and ("inv", ("const", 1000)) in inv_dur[0][1][1:]:
+                        kind = "duration / 1000"
+                    if kind:
+                        idioms.setdefault(kind, []).append(E.where(f, l.node))
+    n_sites = sum(len(v) for v in idioms.values())
+    major = max(idioms, key=lambda k: len(idioms[k])) if idioms else None
+    for kind, sites in sorted(idioms.items()):
+        for wsite in sorted(set(sites)):
+            rep.check(kind == major, "UNIT", f"ns-to-us|{kind.split('  ')[0]}|{wsite.split(' ')[-1].strip('()')}", f"total duration converted as `{kind}` like the other {len(idioms[major]) - 1} site(s)",
+                      f"the total duration is converted to microseconds as `{kind}` here but as `{major}` at {sorted(set(idioms[major]))[:3]}: the two differ in the last bit for many durations, so a time equal to the end of the sequence at one site is beyond it (or not exactly 1.0 relative) at the other -- e.g. an observable evaluated at relative time 1.0 is refused", wsite)
+    if n_sites < 3:
+        rep.error(f"only {n_sites} ns->us conversions of the total duration found in the emulator (expected >= 3)")
+    return {"string_vs_array_comparisons": n_cmp, "accumulations": n_w, "basis_name_tests": n_sfx, "unit_conversions": {k: len(v) for k, v in idioms.items()}}
